@@ -129,11 +129,73 @@ _TABLE = [None]       # shared visited table, inherited by pool workers
 BATCH = 12            # executions per worker task before handing back
 
 
+def in_child(fn, *args):
+    """Run fn(*args) in a forked child of this process and return its
+    (picklable) result - for computations that must not leave any state
+    behind in this process (lazily built tables, memo caches of the tree
+    under test).  Only call from a process that has never run a scenario
+    thread (see Explorer)."""
+    import pickle
+    import traceback
+    r, w = os.pipe()
+    pid = os.fork()
+    if pid == 0:
+        try:
+            os.close(r)
+            try:
+                data = pickle.dumps(('ok', fn(*args)))
+            except BaseException as e:
+                data = pickle.dumps(('err', '%r\n%s'
+                                     % (e, traceback.format_exc())))
+            with os.fdopen(w, 'wb') as f:
+                f.write(data)
+        finally:
+            os._exit(0)
+    os.close(w)
+    with os.fdopen(r, 'rb') as f:
+        data = f.read()
+    os.waitpid(pid, 0)
+    if not data:
+        raise ToolError('child process died without a result')
+    kind, payload = pickle.loads(data)
+    if kind != 'ok':
+        raise ToolError('child process failed: %s' % payload)
+    return payload
+
+
+def _cold(scenario):
+    """scenario run in a fresh fork of this (worker) process every time: each
+    execution starts from the process state the worker was forked with, so
+    first-use effects (lazily filled tables, memo caches) are part of every
+    execution and nothing leaks from one execution into the next."""
+    prepare = getattr(scenario, 'prepare', None)
+    if prepare is not None:
+        # (imports, scheduler hooks, scheduling points: once per worker, the
+        # children inherit them; it must not execute library code paths)
+        prepare()
+
+    def one(pre, par, visited, bound):
+        x = scenario(pre, par, None, bound)
+        return dict((k, getattr(x, k, None))
+                    for k in pysched.Execution.__slots__)
+
+    def run(pre, par, visited, bound):
+        d = in_child(one, pre, par, visited, bound)
+        x = pysched.Execution()
+        for k, v in d.items():
+            setattr(x, k, v)
+        return x
+    return run
+
+
 def _work(args):
     """Pool task: a bounded piece of DFS; returns (Result, leftover stack)."""
-    factory, params, bound, memo, items = args
+    factory, params, bound, memo, items = args[:5]
+    cold = len(args) > 5 and args[5]
     try:
         scenario = factory(params)
+        if cold:
+            scenario = _cold(scenario)
         if bound == 'confirm':
             return confirm(scenario, items[0], items[1]), None, None
         res = Result()
@@ -208,7 +270,8 @@ class Explorer(object):
             raise ToolError('worker failed: %s' % out[2])
         return out
 
-    def bound(self, ctx, factory, params, bound, max_execs, fresh=True):
+    def bound(self, ctx, factory, params, bound, max_execs, fresh=True,
+              cold=False):
         """One complete exploration at one preemption bound."""
         # The table is never cleared: keys carry the scenario's identity, and
         # entries record the preemption budget that was left, so a state met
@@ -228,7 +291,7 @@ class Explorer(object):
                 if not pending:
                     break
                 r, pending, err = _work((factory, params, bound, self.memo,
-                                         pending))
+                                         pending, cold))
                 if err:
                     raise ToolError('worker failed: %s' % err)
                 res.merge(r)
@@ -237,7 +300,8 @@ class Explorer(object):
                 k = max(1, min(4, len(pending) // (2 * self.jobs)))
                 items, pending = pending[-k:], pending[:-k]
                 self.pool.apply_async(
-                    _work, ((factory, params, bound, self.memo, items),),
+                    _work, ((factory, params, bound, self.memo, items,
+                             cold),),
                     callback=self.done.put, error_callback=self.done.put)
                 inflight += 1
             if not inflight:
@@ -258,20 +322,22 @@ class Explorer(object):
         return res
 
     def explore(self, ctx, factory, params, bound, budget=None, label='',
-                fresh_table=True):
+                fresh_table=True, cold=False):
         """Explore all schedules of factory(params), iterating the preemption
         bound 0, 1, ..., bound (so the first counterexample found has the
         fewest preemptions) and stopping at the first bound with a
         violation.  Violations are confirmed by double replay and reported
         on ctx with the schedule as the replayable case.  Returns the Result
-        of the last bound explored."""
+        of the last bound explored.  cold=True: every execution runs in a
+        fresh fork of its worker (no memoisation, first-use effects included
+        in every execution); the scenario's result must be picklable."""
         res = None
         for b in range(0, bound + 1):
             # fresh_table=False: the caller guarantees that state keys of
             # different explorations cannot coincide (the scenario's identity
             # is part of its state) and explores a single bound
             res = self.bound(ctx, factory, params, b, budget,
-                             fresh_table or b > 0)
+                             fresh_table or b > 0, cold)
             ctx.count(res.execs)
             ctx.traces += res.execs
             ctx.transitions += res.points
@@ -292,7 +358,7 @@ class Explorer(object):
         for key in sorted(res.violations):
             what, choices, outcome = res.violations[key]
             ok, _, _ = self.call((factory, params, 'confirm', False,
-                                  (choices, key)))
+                                  (choices, key), cold))
             if not ok:
                 raise pysched.Nondeterminism(
                     'violation %r vanished on replay of %r' % (key, choices))
